@@ -60,7 +60,8 @@ type Ev struct {
 	Sel       int
 	TryOK     bool
 	N         int
-	FirstPark int // first step at which the thread was parked on a cond inside this op (-1: never)
+	Panic     string // run-time panic raised by the operation ("send on closed channel", ...)
+	FirstPark int    // first step at which the thread was parked on a cond inside this op (-1: never)
 }
 
 type Config struct {
@@ -288,42 +289,49 @@ func runOne(cfg Config) *world {
 						w.pairs[kindName[o.Kind]+"-"+kindName[cs.Kind]+"/"+stateTag(w.chans[cs.Ch])]++
 					}
 				}
-				switch o.Kind {
-				case kSend:
-					v := o.Val
-					e.OK = rt.ChanSend(w.chans[o.Ch], unsafe.Pointer(&v), 8)
-				case kRecv:
-					var v int64
-					e.OK = rt.ChanRecv(w.chans[o.Ch], unsafe.Pointer(&v), 8)
-					e.RVal = v
-				case kClose:
-					rt.ChanClose(w.chans[o.Ch])
-					e.OK = true
-				case kLen:
-					e.N = rt.ChanLen(w.chans[o.Ch])
-				case kTrySend:
-					v := o.Val
-					e.TryOK = rt.ChanTrySend(w.chans[o.Ch], unsafe.Pointer(&v), 8)
-				case kTryRecv:
-					var v int64
-					e.OK, e.TryOK = rt.ChanTryRecv(w.chans[o.Ch], unsafe.Pointer(&v), 8)
-					e.RVal = v
-				case kSelect, kTrySelect:
-					ops := make([]rt.ChanOp, len(o.Cases))
-					vals := make([]int64, len(o.Cases))
-					for i, cs := range o.Cases {
-						vals[i] = cs.Val
-						ops[i] = rt.ChanOp{C: w.chans[cs.Ch], Val: unsafe.Pointer(&vals[i]), Size: 8, Send: cs.Kind == kSend}
+				guard(e, func() {
+					switch o.Kind {
+					case kSend:
+						v := o.Val
+						e.OK = rt.ChanSend(w.chans[o.Ch], unsafe.Pointer(&v), 8)
+					case kRecv:
+						var v int64
+						e.OK = rt.ChanRecv(w.chans[o.Ch], unsafe.Pointer(&v), 8)
+						e.RVal = v
+					case kClose:
+						rt.ChanClose(w.chans[o.Ch])
+						e.OK = true
+					case kLen:
+						e.N = rt.ChanLen(w.chans[o.Ch])
+					case kTrySend:
+						v := o.Val
+						e.TryOK = rt.ChanTrySend(w.chans[o.Ch], unsafe.Pointer(&v), 8)
+					case kTryRecv:
+						var v int64
+						e.OK, e.TryOK = rt.ChanTryRecv(w.chans[o.Ch], unsafe.Pointer(&v), 8)
+						e.RVal = v
+					case kSelect, kTrySelect:
+						ops := make([]rt.ChanOp, len(o.Cases))
+						vals := make([]int64, len(o.Cases))
+						for i, cs := range o.Cases {
+							vals[i] = cs.Val
+							ops[i] = rt.ChanOp{C: w.chans[cs.Ch], Val: unsafe.Pointer(&vals[i]), Size: 8, Send: cs.Kind == kSend}
+						}
+						if o.Kind == kSelect {
+							e.Sel, e.OK = rt.Select(ops...)
+							e.TryOK = true
+						} else {
+							e.Sel, e.OK, e.TryOK = rt.TrySelect(ops...)
+						}
+						if e.TryOK && e.Sel >= 0 && e.Sel < len(vals) {
+							e.RVal = vals[e.Sel]
+						}
 					}
-					if o.Kind == kSelect {
-						e.Sel, e.OK = rt.Select(ops...)
-						e.TryOK = true
-					} else {
-						e.Sel, e.OK, e.TryOK = rt.TrySelect(ops...)
-					}
-					if e.TryOK && e.Sel >= 0 && e.Sel < len(vals) {
-						e.RVal = vals[e.Sel]
-					}
+				})
+				if e.Panic != "" {
+					// Go-mandated panic instead of a false result (z_chan.go after the C03 repair): the operation
+					// completed without effect; for the monitors this is the same observation as ok=false / no case.
+					e.OK, e.TryOK, e.Sel = false, false, -1
 				}
 				e.Ret = s.Steps
 				th.Pend = ""
@@ -333,6 +341,20 @@ func runOne(cfg Config) *world {
 	}
 	s.Run()
 	return w
+}
+
+// guard turns a run-time panic of the channel code into an observation; scheduler assertions ("vs: ...") stay fatal.
+func guard(e *Ev, f func()) {
+	defer func() {
+		if r := recover(); r != nil {
+			msg := fmt.Sprint(r)
+			if strings.HasPrefix(msg, "vs:") {
+				panic(r)
+			}
+			e.Panic = msg
+		}
+	}()
+	f()
 }
 
 // ---------------------------------------------------------------- flattening to channel-level operations
@@ -386,6 +408,9 @@ func flatten(evs []*Ev) []cop {
 			out = append(out, c)
 		case kSelect, kTrySelect:
 			blocking := e.O.Kind == kSelect
+			if e.Panic != "" {
+				continue // no channel-level effect; legality of the panic is checked separately
+			}
 			if e.Ret < 0 {
 				for _, cs := range e.O.Cases {
 					c := base
@@ -735,6 +760,36 @@ func check(cfg Config, w *world) []finding {
 					add("len-unbuffered", "channel %d: len() = %d on an unbuffered channel", ch, c.n)
 				}
 			}
+		}
+	}
+	// ---- a run-time panic is legal only for a send whose channel was closed by then
+	for _, e := range w.evs {
+		if e.Panic == "" {
+			continue
+		}
+		legal := false
+		var chs []int
+		switch e.O.Kind {
+		case kSend, kTrySend:
+			chs = []int{e.O.Ch}
+		case kSelect, kTrySelect:
+			for _, cs := range e.O.Cases {
+				if cs.Kind == kSend {
+					chs = append(chs, cs.Ch)
+				}
+			}
+		}
+		if strings.Contains(e.Panic, "send on closed channel") {
+			for _, ch := range chs {
+				for _, x := range ops {
+					if x.ch == ch && x.kind == kClose && x.call <= e.Ret {
+						legal = true
+					}
+				}
+			}
+		}
+		if !legal {
+			add("unexpected-panic", "T%d#%d %s panicked with %q although no send case of it was on a channel closed by then", e.Th, e.Idx, kindName[e.O.Kind], e.Panic)
 		}
 	}
 	// ---- M6 failed try / default while a plain counterpart was parked throughout (unbuffered)
